@@ -16,6 +16,27 @@ var commonStubs = []string{
 const fnNeedsUpdate = "github.com/wokdav/gopki/generator/db.needsUpdate"
 
 var properties = map[string]propSpec{
+	"C06": {
+		ID: "C06",
+		Harnesses: []harnessSpec{
+			{Pkg: "generator/config/v1", Fn: "vhExtensionList", Reach: []string{"generated"},
+				Quick: map[string]int{"L": 2}, Thorough: map[string]int{"L": 3},
+				What: "typed config -> initCertificate -> BuildCertBody -> Sign: list of 0..L raw extensions (all 11 kinds at position 0; same kind / custom / keyUsage later), raw form {!binary of 2 symbolic bytes, !null, !empty}, critical symbolic"},
+			{Pkg: "generator/config/v1", Fn: "vhCriticalFlag", Reach: []string{"generated"},
+				What: "content form of each of the 10 structured kinds, critical symbolic: emitted Critical = configured flag, OID = reference OID"},
+			{Pkg: "generator/config/v1", Fn: "vhRawString", Reach: []string{"decoded"}, Quick: map[string]int{"LEN": 5}, Thorough: map[string]int{"LEN": 12},
+				What: "readRawString(!binary:base64(p)) = p, all bytes of p symbolic (real base64 encoder and decoder interpreted)"},
+			{Pkg: "generator/config/v1", Fn: "vhRawString", Reach: []string{"decoded"}, Quick: map[string]int{"LEN": 767, "SYMTAIL": 3}, Thorough: map[string]int{"LEN": 1535, "SYMTAIL": 3}, MaxSteps: 60_000_000,
+				What: "same, payload just below the streaming decoder's chunk boundary, last 3 bytes symbolic"},
+			{Pkg: "generator/config/v1", Fn: "vhRawString", Reach: []string{"decoded"}, Quick: map[string]int{"LEN": 769, "SYMTAIL": 3}, Thorough: map[string]int{"LEN": 1538, "SYMTAIL": 3}, MaxSteps: 60_000_000,
+				What: "same, payload just above the chunk boundary"},
+			{Pkg: "generator/config/v1", Fn: "vhRawString", Reach: []string{"decoded"}, Quick: map[string]int{"LEN": 4099, "SYMTAIL": 2}, Thorough: map[string]int{"LEN": 65536, "SYMTAIL": 2}, MaxSteps: 2_000_000_000,
+				What: "same, large payload (4 KiB quick / 64 KiB thorough), last 2 bytes symbolic"},
+		},
+		Bounds:  "extension lists of length 0..2 (quick) / 0..3 (thorough); raw payloads: lengths 0..5 / 0..12 fully symbolic via LEN (one length per run: 5 / 12) plus 767, 769, 4099 (quick) and 1535, 1538, 65536 (thorough) with a symbolic tail",
+		Outside: []string{"payload lengths other than the listed ones", "lists longer than 3", "unique ids and manipulation byte fields (C03/C19)"},
+		Stubs:   append([]string{"keys and signatures are an ideal scheme (transparent injective encoding of key identity and digest); curve arithmetic not interpreted", "time.Now fixed to 2024-03-05 12:00:00 UTC, time.Local = UTC, serial fixed (not the subject here)", "JSON-schema validation and YAML parsing are not entered: the harness starts at the typed v1 structs"}, commonStubs...),
+	},
 	"C08": {
 		ID: "C08",
 		Harnesses: []harnessSpec{
